@@ -93,6 +93,10 @@ def cmd_sigma(name):
             sig.append(v)
     if vals:
         sig.append('"zz"')
+        # a listed value in another letter case: whatever the verdict, the tree must hold what was written
+        up = vals[0].upper()
+        if up != vals[0]:
+            sig.append(up)
     foreign = ":foreign" if ":foreign" not in tags else ":other"
     sig.append(foreign)
     sig += ["STR", "LIST1", "LIST2", "LISTDUP", "NUM", "10K", "ML", "true"]
